@@ -23,6 +23,9 @@ import (
 // the logs emitted by the last vRun2, flattened (address ++ topics ++ data), per interpreter
 var vLogsI, vLogsR [][]byte
 
+// balances after the last vRun2 (contract, the fixed third-party account 0xbeef), per interpreter
+var vBalI, vBalR [2][]byte
+
 func vRun(code, input []byte) (ri []byte, ei error, rr []byte, er error) {
 	return vRun2(code, input, nil)
 }
@@ -46,12 +49,15 @@ func vRun2(code, input, calleeCode []byte) (ri []byte, ei error, rr []byte, er e
 		evm := ivm.NewEVM(ctx, st, cc, ivm.Config{EVMGasLimit: 10000000})
 		st.CreateAccount(addr)
 		st.SetCode(addr, append([]byte{}, code...))
+		st.AddBalance(addr, big.NewInt(1000))                 // the contract owns something
+		st.CreateAccount(icommon.BytesToAddress([]byte{0x07})) // an account that exists and is empty
 		if calleeCode != nil {
 			ca := icommon.BytesToAddress([]byte{0xca, 0x11, 0xee})
 			st.CreateAccount(ca)
 			st.SetCode(ca, append([]byte{}, calleeCode...))
 		}
 		ri, _, ei = evm.Call(ivm.AccountRef(icommon.Address{}), addr, append([]byte{}, input...), 10000000, zero())
+		vBalI = [2][]byte{st.GetBalance(addr).Bytes(), st.GetBalance(icommon.BytesToAddress([]byte{0xbe, 0xef})).Bytes()}
 		vLogsI = nil
 		for _, l := range st.Logs() {
 			f := append([]byte{}, l.Address[:]...)
@@ -76,12 +82,15 @@ func vRun2(code, input, calleeCode []byte) (ri []byte, ei error, rr []byte, er e
 		evm := rvm.NewEVM(ctx, st, cc, rvm.Config{})
 		st.CreateAccount(addr)
 		st.SetCode(addr, append([]byte{}, code...))
+		st.AddBalance(addr, big.NewInt(1000))
+		st.CreateAccount(rcommon.BytesToAddress([]byte{0x07}))
 		if calleeCode != nil {
 			ca := rcommon.BytesToAddress([]byte{0xca, 0x11, 0xee})
 			st.CreateAccount(ca)
 			st.SetCode(ca, append([]byte{}, calleeCode...))
 		}
 		rr, _, er = evm.Call(rvm.AccountRef(rcommon.Address{}), addr, append([]byte{}, input...), 10000000, zero())
+		vBalR = [2][]byte{st.GetBalance(addr).Bytes(), st.GetBalance(rcommon.BytesToAddress([]byte{0xbe, 0xef})).Bytes()}
 		vLogsR = nil
 		for _, l := range st.Logs() {
 			f := append([]byte{}, l.Address[:]...)
@@ -439,4 +448,31 @@ func VerifHarness_C10_create() {
 	vReach("executed")
 	vAgree(ri, ei, rr, er, "E9")
 	vAssert(ei == nil && len(ri) == 0x40, "E9-in-tree-executes")
+}
+
+
+// E10: SELFDESTRUCT of a contract that owns 1000 wei, to a third party, to itself (the ether is
+// destroyed), to an existing empty account or to a missing one; optionally the balance is read first. Return data and
+// the balances left behind must be the same in both interpreters.
+func VerifHarness_C10_selfdestruct() {
+	var code []byte
+	if vNondetBool("read-balance-first") {
+		code = append(code, 0x30, 0x31, 0x60, 0x00, 0x52) // ADDRESS BALANCE -> mem[0]
+	}
+	switch vNondetLen("beneficiary", 0, 3) {
+	case 0:
+		code = append(code, 0x61, 0xbe, 0xef) // PUSH2 0xbeef
+	case 1:
+		code = append(code, 0x30) // ADDRESS: itself
+	case 2:
+		code = append(code, 0x60, 0x07) // the existing empty account
+	default:
+		code = append(code, 0x60, 0x09) // an account that does not exist
+	}
+	code = append(code, 0xff)
+	ri, ei, rr, er := vRun(code, nil)
+	vReach("executed")
+	vAgree(ri, ei, rr, er, "E10")
+	vAssert(bytes.Equal(vBalI[0], vBalR[0]), "E10-same-balance-left-in-the-contract")
+	vAssert(bytes.Equal(vBalI[1], vBalR[1]), "E10-same-balance-at-the-third-party")
 }
